@@ -43,6 +43,7 @@ type Roles struct {
 	ActionName map[int64]string
 	StrategyReplace int64
 	Errs       []string
+	alwaysMemo map[*ssa.Function]int
 }
 
 func (ro *Roles) fail(format string, a ...interface{}) {
@@ -289,7 +290,22 @@ func resolveRoles(w *World) *Roles {
 			}
 		}
 	}
-	// cancel: exported method (uuid) error whose only module callee is the internal cancel
+	// internal cancel: the function that delivers Scheduler.Cancel on a goroutine;
+	// exported cancel: exported method (uuid) error that reaches it
+	for _, fn := range funcs {
+		delivers := false
+		allInstrs(fn, func(in ssa.Instruction) {
+			if g, ok := in.(*ssa.Go); ok && w.deliversSchedulerCancel(g) {
+				delivers = true
+			}
+		})
+		if delivers {
+			if ro.CancelInt != nil {
+				ro.fail("internal cancel ambiguous: %s, %s", FuncName(ro.CancelInt), FuncName(fn))
+			}
+			ro.CancelInt = fn
+		}
+	}
 	for _, fn := range funcs {
 		if fn.Object() == nil || !fn.Object().Exported() || fn.Signature.Recv() == nil || fn.Signature.Results().Len() != 1 || fn.Signature.Results().At(0).Type().String() != "error" {
 			continue
@@ -297,16 +313,8 @@ func resolveRoles(w *World) *Roles {
 		if fn.Signature.Params().Len() != 1 || !strings.HasSuffix(fn.Signature.Params().At(0).Type().String(), "uuid.UUID") {
 			continue
 		}
-		var inner []*ssa.Function
-		allInstrs(fn, func(in ssa.Instruction) {
-			if c, ok := in.(*ssa.Call); ok {
-				if f := c.Call.StaticCallee(); f != nil && w.InModule(f) && f.Package() == ro.Root {
-					inner = append(inner, f)
-				}
-			}
-		})
-		if len(inner) == 1 && types.Identical(inner[0].Signature.Results(), fn.Signature.Results()) {
-			ro.CancelAPI, ro.CancelInt = fn, inner[0]
+		if ro.CancelInt != nil && len(ro.callsReaching(fn, func(f *ssa.Function) bool { return f == ro.CancelInt })) > 0 {
+			ro.CancelAPI = fn
 		}
 	}
 	if ro.CancelInt == nil {
